@@ -892,9 +892,13 @@ func (ctx Ctx) selectExpr(e *ast.SelectorExpr) coq.Expr {
 			// T__m x would run the method instead of producing a function
 			ctx.unsupported(e, "method value of a method without parameters")
 		}
+		if !ok {
+			ctx.unsupported(e, "method value on a value of type %v", selectorType)
+		}
 		m := coq.MethodName(structInfo.name, e.Sel.Name)
 		ctx.dep.addDep(m)
-		return coq.NewCallExpr(coq.GallinaIdent(m), ctx.expr(e.X))
+		// inside the method itself the name is the rec binder
+		return coq.NewCallExpr(ctx.coqRecurFunc(m, e.Sel), ctx.expr(e.X))
 	}
 	if ok {
 		return ctx.structSelector(structInfo, e)
@@ -2057,7 +2061,15 @@ func (ctx Ctx) funcDecl(d *ast.FuncDecl) coq.FuncDecl {
 		if !ok {
 			ctx.unsupported(rcvr, "unexpected function receiver type: %s", ctx.printGo(rcvrTy))
 		}
-		fd.Name = coq.MethodName(ident.Name, d.Name.Name)
+		rcvrName := ident.Name
+		if tn, ok := ctx.info.Uses[ident].(*types.TypeName); ok {
+			// calls are named after the type the checker resolves the
+			// receiver to, which differs from its spelling for an alias
+			if named, ok := types.Unalias(tn.Type()).(*types.Named); ok {
+				rcvrName = named.Obj().Name()
+			}
+		}
+		fd.Name = coq.MethodName(rcvrName, d.Name.Name)
 		fd.Args = append(fd.Args, ctx.field(rcvr))
 	}
 
